@@ -45,3 +45,19 @@ Theorem C07_fragment_statement : forall tx norm silent, Table.wf_x norm tx = tru
   exists d, Table.denote_x norm tx = Ok d /\ Parse.parse_lexemes norm silent (Table.lexemes_x tx) = Ok (Some (PDict d)).
 Proof. exact TableClauseProofs.table_x_parse. Qed.
 Print Assumptions C07_fragment_statement.
+
+(* ---------- ENUM values of CREATE TYPE / CREATE DOMAIN ----------------------------------------------------------------------------------------
+   For every statement of the value-list fragment (C18_type_domain_exact) whose base type is ENUM in any letter case: the entity's
+   values are, in order, the written values, a quoted literal being reported verbatim with its quotes in either normalize_names
+   setting — whatever characters the scanner delivered inside the quotes (keywords, commas, semicolons, comment markers ...). *)
+From SDP Require TypeDom TypeDomProofs TypeDomOutProofs.
+Theorem C07_enum_literals_verbatim : forall d norm silent, TypeDom.wf norm d = true ->
+  String.eqb (upper (Entity.nms norm (TypeDom.d_base d))) "ENUM" = true ->
+  Parse.parse_lexemes norm silent (TypeDom.lexemes d) = Ok (Some (TypeDom.denote norm d)) /\
+  TypeDom.props norm d = PDict [("values", PList (map (TypeDom.val_value norm) (TypeDom.d_vals d)))] /\
+  (forall s, TypeDom.val_value norm (TypeDom.VLit s) = PStr s).
+Proof.
+  intros d norm silent Hwf He. split; [exact (TypeDomProofs.typedom_parse d norm silent Hwf)|].
+  split; [exact (proj1 (TypeDomOutProofs.values_in_order norm d He))|intro s; reflexivity].
+Qed.
+Print Assumptions C07_enum_literals_verbatim.
